@@ -49,3 +49,18 @@ for f, (ns, thm) in FILES.items():
     body = MARK + "\n" + "\n".join(thm(t, v) for t in T for v in range(NV)) + f"\n\nend {ns}\n"
     open(p, "w").write(head + body)
     print(f, "ok")
+
+# C06, generic loop functions instantiated with identifier A (Generated/TemplatesGenericA.lean; `aco::aco` cannot be
+# built from outside the crate): "uses only the requested evaluator" + counterExact on the identifier-erased tree.
+GT = ["ga", "es", "de", "pso", "sa", "ls", "ils", "rs", "rw", "iwo", "fa", "bh", "cro"]
+p = os.path.join(ROOT, "lean", "MahfModel", "Props", "C06Generic.lean")
+s = open(p).read()
+head = s[:s.index(MARK)]
+body = MARK + "\n"
+body += "\n".join(f"theorem generic_{t}_v{v}_uses_only_A : usesOnlyTop .A generic_{t}_v{v} = true := by decide" for t in GT for v in range(NV))
+body += "\n"
+body += "\n".join(f"theorem generic_{t}_v{v}_counter_exact : counterExactTop (IComp.erase generic_{t}_v{v}) = {'false' if t == 'ils' else 'true'} := by decide"
+                  for t in GT for v in range(NV))
+body += "\n\nend MahfModel.Props.C06.Generic\n"
+open(p, "w").write(head + body)
+print("C06Generic.lean ok")
